@@ -14,7 +14,7 @@ use std::collections::{BTreeMap, BTreeSet};
 pub const META: PropertyMeta = PropertyMeta {
     id: "C04",
     level: "exploration",
-    rule: "proptest-generated cases: a pre-history (0..4 edits) on device 0 synced to an in-process server storage through the wire-encoding direct client, 2..3 devices cloned from it with per-device virtual clock skew in {0, +-1 ms, +-1 h} (event timestamps come from the clock hook, so ties and skew are exact), per-device offline edit lists of length 0..6 (secret create/update/delete on shared slots, folder rename to names from a 2-word pool / description / flags / create / delete, account rename, device trust/revoke, synthetic file events: byte-identical events on several devices are frequent), a generated initial sync order and then round-robin passes until a full pass changes no status (fixpoint) or 6 passes. The real sos_remote_sync AutoMerge::execute_sync runs on every device. Oracle: (a) every sync that returns Ok leaves that device's sync_status equal to the server's at that instant, log by log (root and length); (b) a fixpoint is reached within 6 passes and at the fixpoint all devices and the server have equal statuses and all devices serve equal decrypted folders, unless a device's sync keeps reporting an explicit conflict (classified, not a violation). Sub-check convergence-rewrites: the same cases with moves of a secret between folders, compact_folder and change_folder_password in the edit mix (pre-history and offline edits); every device snapshot also reads every secret through the account API (the key held by the folder's access point), not only by decrypting the vault with the folder password from the identity folder. Non-trivial = at least two devices edited the same log offline (the request trace shows a scan). Distinct = distinct case.",
+    rule: "proptest-generated cases: a pre-history (0..4 edits) on device 0 synced to an in-process server storage through the wire-encoding direct client, 2..3 devices cloned from it with per-device virtual clock skew in {0, +-1 ms, +-1 h} (event timestamps come from the clock hook, so ties and skew are exact), per-device offline edit lists of length 0..6 (secret create/update/delete on shared slots, folder rename to names from a 2-word pool / description / flags / create / delete, account rename, device trust/revoke, synthetic file events: byte-identical events on several devices are frequent), a generated initial sync order and then round-robin passes until a full pass changes no status (fixpoint) or 6 passes. The real sos_remote_sync AutoMerge::execute_sync runs on every device. Oracle: (a) every sync that returns Ok leaves that device's sync_status equal to the server's at that instant, log by log (root and length); (b) a fixpoint is reached within 6 passes and at the fixpoint all devices and the server have equal statuses and all devices serve equal decrypted folders, unless a device's sync keeps reporting an explicit conflict (classified, not a violation). Sub-check convergence-rewrites: the same cases with moves of a secret between folders, compact_folder and change_folder_password in the edit mix (pre-history and offline edits); every device snapshot also reads every secret through the account API (the key held by the folder's access point), not only by decrypting the vault with the folder password from the identity folder. Sub-check convergence-long-suffix: two devices, one of them 34..43 folder edits ahead of the other (which has 1..2 edits of its own), so that the common ancestor lies beyond the first 32-proof page of the ancestor scan. Non-trivial = at least two devices edited the same log offline (the request trace shows a scan). Distinct = distinct case.",
     assumptions: &[
         "interleaving is sequential here (one sync call at a time); concurrent syncs are C09",
         "history rewrites (compaction, password change) are excluded from the offline edits, as in the statement of C05; C12 covers them",
@@ -572,6 +572,29 @@ pub fn fill_info(info: &mut CaseInfo, c: &ConvCase, out: &ConvOutcome) {
 fn run(shard: &Shard, rep: &mut Report) {
     let t = shard.tier;
     drive(shard, rep, "convergence", shard.share(t.pick(300, 5_000)), case_strategy(7), |c| check_c04(c, tolerate_for(shard, hash_of(c))));
+    // one device far ahead: the common ancestor lies beyond the first page of the ancestor scan
+    let long = (case_strategy(3), proptest::collection::vec(edit_strategy(), 33..44), any::<bool>()).prop_map(|(mut c, many, first)| {
+        c.offline.truncate(2);
+        while c.offline.len() < 2 {
+            c.offline.push(vec![]);
+        }
+        let busy = if first { 0 } else { 1 };
+        // the far-ahead device edits folders only (every log type pages the same way; folder logs are the common case)
+        c.offline[busy] = many.into_iter().filter(|e| matches!(e.log_class(), "folder" | "folder+account")).collect();
+        while c.offline[busy].len() < 34 {
+            let n = c.offline[busy].len();
+            c.offline[busy].push(Edit::CreateSecret { folder: 0, label: if n % 2 == 0 { "x".into() } else { "y".into() }, text: format!("t{n}") });
+        }
+        if !c.offline[1 - busy].iter().any(|e| e.log_class() == "folder") {
+            c.offline[1 - busy].push(Edit::UpdateSecret { sec: 0, label: "x".into(), text: "other".into() });
+        }
+        c
+    });
+    drive(shard, rep, "convergence-long-suffix", shard.share(t.pick(32, 400)), long, |c| {
+        let (mut info, r) = check_c04(c, tolerate_for(shard, hash_of(c)));
+        info.class("one-device-33+-edits-ahead");
+        (info, r)
+    });
     drive(shard, rep, "convergence-rewrites", shard.share(t.pick(200, 4_000)), case_strategy_with(6, edit_strategy_rewrites().boxed()), |c| {
         let (mut info, r) = check_c04(c, tolerate_for(shard, hash_of(c)));
         for e in c.pre.iter().chain(c.offline.iter().flatten()) {
